@@ -321,6 +321,20 @@ def run(ctx):
                 continue
             for kind, desc, nm in compare_schemas(R, W, v):
                 agg.setdefault((kind, desc, nm), []).append(v)
+        # presence of one element must not hinge on the presence of another on one side only (nesting of presence / next-tag conditions)
+        rdepth = {e['tag'] or e['ident']: len(e.get('conds') or []) for e in R.events}
+        for e in W.events:
+            k_ = e['tag'] or e['ident']
+            outer = (e.get('conds') or [])[:-1]
+            if outer and rdepth.get(k_, 0) <= 1:
+                agg.setdefault(('presence', 'the writer emits %s only when %s is present too, while the reader accepts it independently: a value that carries %s without %s loses it on encoding' % (
+                    k_, '/'.join(c[1] for c in outer), k_, '/'.join(c[1] for c in outer)), 'nested under ' + '/'.join(c[1] for c in outer) + ':' + str(k_)), []).append(VERSIONS[-1])
+        wdepth = {e['tag'] or e['ident']: len(e.get('conds') or []) for e in W.events}
+        for e in R.events:
+            k_ = e['tag'] or e['ident']
+            outer = (e.get('conds') or [])[:-1]
+            if outer and wdepth.get(k_, 0) <= 1:
+                agg.setdefault(('presence', 'the reader accepts %s only after %s, while the writer emits it independently' % (k_, '/'.join(c[1] for c in outer)), 'nested under ' + '/'.join(c[1] for c in outer) + ':' + str(k_)), []).append(VERSIONS[-1])
         if not agg:
             ctx.ok('C01.R1', site, 'reader and writer agree on %d element(s) under all versions they define' % len(R.flat(VERSIONS[-1]) or R.flat(VERSIONS[0])))
             ctx.ok('C01.R2', site, 'presence requirements agree')
